@@ -268,6 +268,39 @@ def build_abbrev_file(variant):
     return g.ElfFile(units)
 
 
+def growth_strings(k):
+    """Restricted growth strings of length k: every way to let k units share abbreviation tables."""
+    out = [[0]]
+    for _ in range(k - 1):
+        out = [x + [j] for x in out for j in range(max(x) + 2)]
+    return [tuple(x) for x in out]
+
+
+def share_cases(kmax):
+    for k in range(2, kmax + 1):
+        for rgs in growth_strings(k):
+            nt = max(rgs) + 1
+            for perm in itertools.permutations(range(nt)):
+                yield (k, rgs, perm, [2, 3, 4, 5][(k + sum(rgs) + perm[0]) % 4])
+
+
+def build_share_file(arg):
+    """k units; unit i uses table rgs[i]; the tables lie in .debug_abbrev in the order perm (a permutation of their
+    first-use order), so units may refer to their tables in any offset order."""
+    k, rgs, perm, version = arg
+    tabs = [g.AbbrevTable() for _ in range(max(rgs) + 1)]
+    units = []
+    for ui in range(k):
+        kids = [D(["DW_TAG_variable", "DW_TAG_subprogram", "DW_TAG_typedef"][(ui + j) % 3],
+                  [A("DW_AT_name", "DW_FORM_string", b"n%d" % j)] + ([A("DW_AT_decl_line", "DW_FORM_data1", j + 1)] if (ui + j) % 2 else []),
+                  [D("DW_TAG_formal_parameter", [A("DW_AT_name", "DW_FORM_string", b"p")])] if j == ui % 2 else [])
+                for j in range(2)]
+        units.append(g.Unit(g.cu_root(b"s%d.c" % ui, version=version, children=kids), version, 4, abbrev_table=tabs[rgs[ui]]))
+    elf = g.ElfFile(units)
+    elf.abbrev_order = list(perm)
+    return elf
+
+
 def abbrev_expected(view, elf):
     fid = 1
     e = {}
@@ -321,7 +354,7 @@ def _worker(d, chunk, extra):
             exp = loc_expected(elf, model, version, osz)
             nq, nr, bad = dwbattery.run_file(d, LOCBAT, elf, path, exp)
         else:
-            elf = build_abbrev_file(arg)
+            elf = build_abbrev_file(arg) if kind == "abbrev" else build_share_file(arg)
             elf.write(path)
             nq, nr, bad = dwbattery.run_file(d, ABBAT, elf, path, abbrev_expected(dwmodel.View(elf, 1), elf))
         out["files"] += 1
@@ -340,7 +373,7 @@ def replay(case):
     ctx = common.Ctx("C17", "quick")
     d = drv.Drv(ctx.bin("zwdrv"), "full", timeout=120, cmd_timeout=60)
     try:
-        arg = tuple(case["arg"]) if isinstance(case["arg"], list) else case["arg"]
+        arg = tuple(tuple(x) if isinstance(x, list) else x for x in case["arg"]) if isinstance(case["arg"], list) else case["arg"]
         r = _worker(d, [(case["kind"], arg)], None)
         return any(b[2]["qid"] == case["qid"] for b in r["bad"])
     finally:
@@ -354,6 +387,8 @@ def main(ctx):
     maxlen = 4 if thorough else 3
     tasks += [[("lists", (v, o, maxlen, lp))] for v in (2, 3, 4, 5) for o in ((4, 8) if thorough else (4,)) for lp in (0, 0x400000)]
     tasks += [[("abbrev", k)] for k in range(64 if thorough else 32)]
+    kshare = 5 if thorough else 4
+    tasks += [list(c) for c in common.chunks((("share", a) for a in share_cases(kshare)), 20)]
     for r in common.pmap(ctx, _worker, tasks, bins["zwdrv"], "full", timeout=300, cmd_timeout=120):
         for k in ("files", "queries", "results"):
             ctx.count(k, r[k])
@@ -368,6 +403,7 @@ def main(ctx):
         "rule": "state = one generated file (location attributes: every opcode of the menu at boundary operands, alone / second / in triples; lists with 0-3 ranges and base entries; "
                 "abbreviation layouts: private / shared / unshared tables, indirect forms); every battery query result is compared with the generator's model; distinct = results compared",
         "bounds": {"versions": [2, 3, 4, 5], "op_menu_entries": len(op_menu(5)), "abbrev_variants": 64 if thorough else 32,
+                   "abbrev_sharing": "every way for 2..%d units to share tables (restricted growth strings) x every placement order of the tables in .debug_abbrev" % kshare,
                    "location_lists": {"entry_alphabet": [e[:3] if e[0] != "default" else e[:1] for e in list_alphabet(5)], "max_entries": maxlen, "unit_low_pc": [0, 0x400000]}},
     }
     return ctx.finish("model_checking", cov, [
